@@ -339,3 +339,20 @@ Proof.
     exists "a". split; [vm_compute; reflexivity|]. split; [right; left; reflexivity | discriminate].
   - eexists. split; vm_compute; reflexivity.
 Qed.
+
+(** Former known finding K10 (fixed by 5b88941): [absent(bar{a=""}) <= vector(1)] was reported as a join that can never
+    match because absent() was believed to carry label "a".  The analyser now gives absent() exactly the labels
+    [absentLabels] returns: the join is not flagged, nothing is dead, promql/impossible has nothing to report. *)
+Definition k10_e : expr :=
+  EBin OLte false (Some {| vm_card := OneToOne; vm_on := false; vm_labels := []; vm_include := [] |})
+       (ECall "absent" [VVector] [ESel [{| m_type := MEq; m_name := "a"; m_value := "" |}; {| m_type := MEq; m_name := "__name__"; m_value := "bar" |}]])
+       (ECall "vector" [VScalar] [ENum 1%float]).
+
+Example C12_absent_labels_fixed :
+  wf k10_e = true /\
+  (exists s, walk0 k10_e = [s] /\ s_dead s = false /\ forallb (fun j => negb (s_dead j)) (s_joins s) = true /\
+             can_have_label s "a" = false) /\
+  impossible_problems (walk0 k10_e) = [].
+Proof.
+  split; [reflexivity|]. split; [eexists; repeat split; vm_compute; reflexivity | vm_compute; reflexivity].
+Qed.
